@@ -385,14 +385,20 @@ def save_options(fmt, opts):
     return o or None
 
 
-def do_save(b, fmt, opts, output=None):
-    """-> None when the save returns, the exception class name when it raises."""
+_FRESH = object()
+
+
+def do_save(b, fmt, opts, output=None, options_obj=_FRESH):
+    """-> None when the save returns, the exception class name when it raises.
+    options_obj: the options mapping to pass (the SAME object for consecutive saves, as a caller keeping its
+    options in a variable does); by default a fresh dict per call."""
     from pyecore.resources import URI
+    o = save_options(fmt, opts) if options_obj is _FRESH else options_obj
     try:
         if output is not None:
-            b.res.save(output=URI(output), options=save_options(fmt, opts))
+            b.res.save(output=URI(output), options=o)
         else:
-            b.res.save(options=save_options(fmt, opts))
+            b.res.save(options=o)
         return None
     except Exception as e:      # noqa: any failure of save is a failed save
         return type(e).__name__
@@ -419,15 +425,20 @@ def check_success(out, model, spec, fmt, opts, stats, scratch):
         with open(target, 'wb') as f:
             f.write(b'PREVIOUS')
         d0, i0 = dump(b), ids_of(b)
-        e1 = do_save(b, fmt, opts, outp)
+        shared = save_options(fmt, opts)          # one options object reused by the three saves
+        shared0 = dict(shared) if shared is not None else None
+        e1 = do_save(b, fmt, opts, outp, options_obj=shared)
         bytes1 = read(target)
-        e2 = do_save(b, fmt, opts, outp)
+        e2 = do_save(b, fmt, opts, outp, options_obj=shared)
         bytes2 = read(target)
         d2, i2 = dump(b), ids_of(b)
         other = os.path.join(d, 'third.' + fmt)
-        e3 = do_save(b, fmt, opts, other)
+        e3 = do_save(b, fmt, opts, other, options_obj=shared)
         bytes3 = read(other)
         stats['saves'] += 3
+        if shared0 is not None and dict(shared) != shared0:
+            out.fail(sig('options-consumed', fmt), f'save() modified the options mapping it was given: '
+                     f'{sorted(map(str, shared0))} -> {sorted(map(str, shared))}', case)
         if e1 or e2 or e3:
             # a generated model that cannot be saved as it is (e.g. None in a date attribute under
             # SERIALIZE_DEFAULT_VALUES in JSON) belongs to the failure half: the target must survive
